@@ -162,7 +162,15 @@ where
 
         let (result, mode) = if settled_by_sender {
             // If the message is pre-settled, there is no need to
-            // add to the unsettled map and no need to reply to the Sender
+            // add to the unsettled map and no need to reply to the Sender.
+            // The frames of a multi-frame delivery were recorded there while
+            // the delivery was incomplete: a settled delivery must not stay
+            {
+                let mut lock = self.unsettled.write();
+                if let Some(map) = lock.as_mut() {
+                    let _ = map.swap_remove(&delivery_tag);
+                }
+            }
             let result = T::decode_message_from_reader(payload.into_reader());
             (result, None)
         } else {
